@@ -135,6 +135,8 @@ var tlTemplates = []string{
 	"    a\n    " + hY + hY + "\n    b",           // 109 whitespace-only line inside indented code
 	"~~~ t\n" + hY + hY + "\n~~~",                 // 110 whitespace-only line as the only content
 	"- a" + hT + hT + "\n  b",                     // 111 hard break candidates inside a list item
+	"[a]: b\n  " + hA + "\n==",                    // 112 definition, indented line, setext underline
+	"[a]: b\n " + hA + hA + "\n--",                // 113 the same with a two-byte line and a '-' underline
 }
 
 // tlQuick lists the templates with at most two holes... (kept for reference);
